@@ -1,6 +1,7 @@
 ----------------------------------------- MODULE Operator_mc -----------------------------------------
 (* Configuration families for TLC.  A configuration is a record (see Operator.tla); the exhaustive runs explore the
-   union of two families so that the product stays finite-but-meaningful:
+   union of two families so that the product stays finite-but-meaningful (both families contain, for restart points other
+   than (0, 0), the variant where the restart point is in place at entry and the variant where a BOL hook puts it there):
      L  "loop":     every cycle history / restart point / coupling setting, with a fixed two-interface stack
                     (1: enabled, reverse-at-EOL, coupled, halting;  2: enabled, deferred-named, coupled)
      D  "dispatch": every stack up to MaxStack interfaces with all flag combinations and every deferral cycle, with a
@@ -20,9 +21,10 @@ Couplings(k) == {[tight |-> FALSE, cap |-> 1, skip |-> NoSkip(k)]} \cup
 
 LStack == <<Iface(TRUE, FALSE, TRUE, FALSE, TRUE, TRUE), Iface(TRUE, FALSE, FALSE, TRUE, TRUE, FALSE)>>
 \* who puts the restart point in place: 0 = already there at entry; 1 = the BOL hook of interface 1; 2 = the BOL hook of interface
-\* 2, which is deferred and therefore never called at BOL (the run then starts at (0, 0)); 2 is explored with coupling off only
-LSetters(st, cp) == IF st = <<0, 0>> THEN {0} ELSE IF cp.tight THEN {0, 1} ELSE {0, 1, 2}
-ConfigsL == UNION {UNION {UNION {{Cfg(h, st[1], st[2], LStack, 1, cp.tight, cp.cap, cp.skip, b) : b \in LSetters(st, cp)}
+\* 2, which is deferred and therefore never called at BOL (the run then starts at (0, 0)); 2 is explored with coupling off only,
+\* and the setter variants with histories of at most two cycles (the third cycle adds nothing to where the loop starts)
+LSetters(h, st, cp) == IF st = <<0, 0>> \/ Len(h) > 2 THEN {0} ELSE IF cp.tight THEN {0, 1} ELSE {0, 1, 2}
+ConfigsL == UNION {UNION {UNION {{Cfg(h, st[1], st[2], LStack, 1, cp.tight, cp.cap, cp.skip, b) : b \in LSetters(h, st, cp)}
                                  : cp \in Couplings(Len(h))} : st \in Starts(h)} : h \in Hists(MaxCyc, MaxBurn)}
 
 \* position p of a D stack: the four dispatch flags are free; the first interface is coupled and halting when EnvD (exhaustive
@@ -33,7 +35,7 @@ DStacks(m) == CASE m = 1 -> {<<a>> : a \in DIfaces(1)}
                 [] m = 3 -> {<<a, b, c>> : a \in DIfaces(1), b \in DIfaces(2), c \in DIfaces(3)}
 DHist == <<1, 0>>
 \* stacks of three are explored from the start of the run with deferral cycle 1 only (4096 stacks)
-DStarts(m) == IF m <= 2 THEN {<<0, 0>>, <<0, 1>>, <<1, 0>>} ELSE {<<0, 0>>}
+DStarts(m) == IF m = 1 THEN {<<0, 0>>, <<0, 1>>, <<1, 0>>} ELSE IF m = 2 THEN {<<0, 0>>, <<1, 0>>} ELSE {<<0, 0>>}
 DDefer(m)  == IF m <= 2 THEN 0..2 ELSE {1}
 \* the restart point is also set by the BOL hook of the LAST interface of the stack (so the hooks before it see (0, 0)), with
 \* deferral cycle 1; whether that hook is called at BOL depends on its flags
